@@ -546,6 +546,8 @@ def check_tables_immutable(ctx: Ctx, rule: str = "IMMUT") -> int:
     tables = set()
     for ci in p.classes.values():
         for st in ci.node.body:
+            if isinstance(st, _ast.AnnAssign) and st.value is not None and isinstance(st.target, _ast.Name):      # `name: dict = {}`
+                st = _ast.copy_location(_ast.Assign(targets=[st.target], value=st.value), st)
             if isinstance(st, _ast.Assign) and len(st.targets) == 1 and isinstance(st.targets[0], _ast.Name) \
                     and (isinstance(st.value, (_ast.Dict, _ast.List, _ast.Set, _ast.Tuple))
                          or (isinstance(st.value, _ast.Call) and isinstance(st.value.func, _ast.Name) and st.value.func.id in ("dict", "list", "set"))):
